@@ -986,6 +986,8 @@ def gen_c10(seed, tier):  # noqa: F811
             if n["kind"] == "call":
                 n["dur"] = rng.choice([1.0, 2.0, 3.0, 5.0, 0.0])
         op["cfg"]["conservation"] = True
+        if op["cfg"].get("max_workers") is None:
+            op["cfg"]["max_workers"] = 2
     return desc
 
 
